@@ -52,7 +52,9 @@ def decimalNanos (r : Str) : Option Int :=
     else none
   | (_, none) => none
 
-/-- an exposed timestamp: an `int` counts seconds; a `Timestamp` is `sec + nsec / 1e9`; a `float` is read off its `repr` —
+/-- an exposed timestamp, to the nanosecond AFTER TRUNCATION (digits of a float's decimal text beyond the ninth are dropped: the
+wire format's `Timestamp` cannot carry them, so two floats that differ only there denote the same instant here; this is a
+deliberate coarsening, not Python's `==`): an `int` counts seconds; a `Timestamp` is `sec + nsec / 1e9`; a `float` is read off its `repr` —
 exponent form denotes the double, plain decimal form the decimal truncated to nanoseconds -/
 def tsDenote (pyFloat : Str → Option Nat) : Ts → Option TsVal
   | .int n => some (.nanos (n * nsPerSec))
